@@ -39,6 +39,15 @@ impl ScopeRef {
     pub fn sub_selectors(parent: Self, selectors: SelectorCtx) -> Self {
         Self::dynamic(Scope::sub_selectors(parent, selectors))
     }
+    /// Create a new subscope for a flow control block.
+    ///
+    /// Assignments in top-level flow control may update global variables.
+    pub(crate) fn sub_flow(parent: Self) -> Self {
+        let semi_global = parent.parent.is_none() || parent.semi_global;
+        let mut scope = Scope::sub(parent);
+        scope.semi_global = semi_global;
+        Self::dynamic(scope)
+    }
     fn dynamic(scope: Scope) -> Self {
         Self::Dynamic(Arc::new(scope))
     }
@@ -60,15 +69,17 @@ impl ScopeRef {
         for b in body.as_ref() {
             let result = match b {
                 Item::IfStatement(cond, do_if, do_else) => {
+                    let scope = Self::sub_flow(self.clone());
                     if cond.evaluate(self.clone())?.is_true() {
-                        self.clone().eval_body(do_if)?
+                        scope.eval_body(do_if)?
                     } else {
-                        self.clone().eval_body(do_else)?
+                        scope.eval_body(do_else)?
                     }
                 }
                 Item::Each(names, values, body) => {
-                    let s = self.clone();
-                    for value in values.evaluate(s.clone())?.iter_items() {
+                    let values = values.evaluate(self.clone())?;
+                    let s = Self::sub_flow(self.clone());
+                    for value in values.iter_items() {
                         s.define_multi(names, value)?;
                         if let Some(r) = s.clone().eval_body(body)? {
                             return Ok(Some(r));
@@ -78,7 +89,7 @@ impl ScopeRef {
                 }
                 Item::For(name, range, body) => {
                     let range = range.evaluate(self.clone())?;
-                    let s = self.clone();
+                    let s = Self::sub_flow(self.clone());
                     for value in range {
                         s.define(name.clone(), value)?;
                         if let Some(r) = s.clone().eval_body(body)? {
@@ -95,7 +106,7 @@ impl ScopeRef {
                     Some(v.do_evaluate(self.clone(), true)?)
                 }
                 Item::While(cond, body) => {
-                    let scope = Self::sub(self.clone());
+                    let scope = Self::sub_flow(self.clone());
                     while cond.evaluate(scope.clone())?.is_true() {
                         if let Some(r) = scope.clone().eval_body(body)? {
                             return Ok(Some(r));
@@ -200,6 +211,9 @@ pub struct Scope {
     format: Format,
     /// The thing to use for `@content` in a mixin.
     content: ArcSwapOption<MixinDecl>,
+    /// True for the scope of a flow control block (`@for`, `@while`)
+    /// that is not inside any rule, mixin or function.
+    semi_global: bool,
 }
 
 impl Scope {
@@ -219,6 +233,7 @@ impl Scope {
             forward: Default::default(),
             format,
             content: None.into(),
+            semi_global: false,
         }
     }
     /// Create a scope for a built-in module.
@@ -247,6 +262,7 @@ impl Scope {
             forward: Default::default(),
             format,
             content: None.into(),
+            semi_global: false,
         }
     }
     /// Create a new subscope of a given parent with selectors.
@@ -262,6 +278,7 @@ impl Scope {
             forward: Default::default(),
             format,
             content: None.into(),
+            semi_global: false,
         }
     }
 
@@ -290,7 +307,7 @@ impl Scope {
 
     /// Define a none-default, non-global variable.
     pub fn define(&self, name: Name, val: Value) -> Result<(), ScopeError> {
-        self.set_variable(name, val, false, false)
+        self.do_set_variable(name, val, false, false, false)
     }
 
     /// Define a variable with a value.
@@ -302,6 +319,20 @@ impl Scope {
         val: Value,
         default: bool,
         global: bool,
+    ) -> Result<(), ScopeError> {
+        self.do_set_variable(name, val, default, global, true)
+    }
+
+    /// Set a variable.  If `assign` is true, this is an assignment
+    /// that should update an existing local variable in an enclosing
+    /// scope rather than shadowing it.
+    fn do_set_variable(
+        &self,
+        name: Name,
+        val: Value,
+        default: bool,
+        global: bool,
+        assign: bool,
     ) -> Result<(), ScopeError> {
         if let Some((modulename, name)) = name.split_module() {
             let module = self
@@ -330,10 +361,29 @@ impl Scope {
         }
         if global {
             self.define_global(name, val);
+        } else if let Some(owner) =
+            assign.then(|| self.local_owner(&name)).flatten()
+        {
+            owner.variables.lock().unwrap().insert(name, val);
+        } else if assign
+            && self.semi_global
+            && self.get_global_or_none(&name).is_some()
+        {
+            self.define_global(name, val);
         } else {
             self.variables.lock().unwrap().insert(name, val);
         }
         Ok(())
+    }
+    /// Find the innermost non-global scope (this or an ancestor) that
+    /// declares a variable.
+    fn local_owner(&self, name: &Name) -> Option<&Scope> {
+        let parent = self.parent.as_deref()?;
+        if self.variables.lock().unwrap().contains_key(name) {
+            Some(self)
+        } else {
+            parent.local_owner(name)
+        }
     }
     /// Define a variable in the global scope that is an ultimate
     /// parent of this scope.
